@@ -1,9 +1,11 @@
 #!/bin/sh
-# Offline setup after a fresh restore: build the conformance harness (path deps on /repo).
+# Offline setup after a fresh restore: build the conformance harness (path deps on /repo), the
+# LD_PRELOAD crash shim and the trust-lsp binary the LSP-facing checks drive.
 set -e
 cd "$(dirname "$0")"
 mkdir -p out evidence
 export CARGO_NET_OFFLINE=true
 (cd harness && cargo build --offline --quiet)
 gcc -shared -fPIC -O1 -o out/crashshim.so harness/shim/crashshim.c -ldl
+(cd harness && cargo build --offline --quiet --manifest-path /repo/Cargo.toml -p trust-lsp --bin trust-lsp --target-dir "$(pwd)/target-repo")
 echo "setup ok"
